@@ -16,19 +16,22 @@ Definition head_quiet (s : store) : Prop :=
   match stabs s with [] => True | hd :: _ => compactable hd = false end.
 Definition quiet (s : store) : Prop := Forall smallc (stabs s) /\ head_quiet s.
 
-Lemma compactable_eq t t' : talloc t' = talloc t -> tgarb t' = tgarb t -> compactable t' = compactable t.
-Proof. unfold compactable. now intros -> ->. Qed.
+Lemma compactable_eq t t' : talloc t' = talloc t -> tgarb t' = tgarb t -> tinuse t' = tinuse t -> compactable t' = compactable t.
+Proof. unfold compactable. now intros -> -> ->. Qed.
 
 Lemma compactable_mono t t' :
-  talloc t' = talloc t -> tgarb t <= tgarb t' -> compactable t = true -> compactable t' = true.
+  talloc t' = talloc t -> tgarb t <= tgarb t' -> tinuse t' <= tinuse t -> compactable t = true -> compactable t' = true.
 Proof.
-  unfold compactable, max_garbage_ratio_num, max_garbage_ratio_den. intros -> Hg H.
-  apply N.leb_le in H. apply N.leb_le. lia.
+  unfold compactable, max_garbage_ratio_num, max_garbage_ratio_den. intros -> Hg Hi H.
+  apply orb_true_iff in H. apply orb_true_iff. destruct H as [H|H].
+  - left. apply andb_true_iff in H as [H1 H2]. apply andb_true_iff. split; lia.
+  - right. apply N.leb_le in H. apply N.leb_le. lia.
 Qed.
 
 Lemma not_compactable_zero t : 0 < talloc t -> tgarb t = 0 -> compactable t = false.
 Proof.
-  unfold compactable, max_garbage_ratio_num, max_garbage_ratio_den. intros Ha ->. apply N.leb_gt. lia.
+  unfold compactable, max_garbage_ratio_num, max_garbage_ratio_den. intros Ha ->.
+  apply orb_false_iff. split; [apply andb_false_iff; right; lia|apply N.leb_gt; lia].
 Qed.
 
 Lemma compactable_garb t : 0 < talloc t -> compactable t = true -> 0 < tgarb t.
@@ -110,6 +113,17 @@ Lemma t_delete_some h t r :
 Proof.
   intros E. rewrite t_delete_recs. unfold t_delete. rewrite E. cbn. split; [reflexivity|split; [lia|]].
   apply sub_length, sub_filter_self.
+Qed.
+
+Lemma t_delete_inuse h t : tinuse (t_delete h t) <= tinuse t.
+Proof. unfold t_delete. destruct (t_find h t); cbn [tinuse]; lia. Qed.
+
+(* appending to a table never makes it qualify: its garbage is unchanged and it now holds a live record *)
+Lemma compactable_append h e t : compactable (t_append h e t) = true -> compactable t = true.
+Proof.
+  unfold compactable, t_append. cbn [tinuse tgarb talloc]. intros H.
+  apply orb_true_iff in H. apply orb_true_iff. destruct H as [H|H]; [left|right; exact H].
+  apply andb_true_iff in H as [H1 H2]. apply andb_true_iff. split; lia.
 Qed.
 
 Lemma filter_lnot_shorter h l r : find (has h) l = Some r -> (length (filter (lnot h) l) < length l)%nat.
@@ -236,7 +250,7 @@ Lemma evict_step s t h r s' res :
   cbase s -> In t (tl (stabs s)) -> live t = true -> compactable t = true ->
   t_find h t = Some r -> s_putraw h (re r) s = (s', res) ->
   res = SOk /\ cbase s' /\ ssize s' = ssize s /\ (forall h', abs s' h' = abs s h') /\
-  In (t_delete h t) (tl (stabs s')) /\ ccount (stabs s') = ccount (stabs s) /\ (quiet s -> quiet s').
+  In (t_delete h t) (tl (stabs s')) /\ (ccount (stabs s') <= ccount (stabs s))%nat /\ (quiet s -> quiet s').
 Proof.
   intros Hb Hin Hl Hc Hf Hp. destruct Hb as [H3 Hs]. pose proof H3 as [[Hw Hu] Hco].
   assert (Hts : In t (stabs s)). { destruct (stabs s); [contradiction|now right]. }
@@ -270,15 +284,19 @@ Proof.
   assert (Hcold : forall x, In x older -> compactable (t_delete h x) = compactable x).
   { intros x Hx. destruct (t_find h x) as [y|] eqn:Ey; [|now rewrite t_delete_none].
     pose proof (Hold _ _ Hx Ey) as Ext. subst x. rewrite Hc. destruct (t_delete_some _ _ _ Ey) as (A & B & _).
-    apply (compactable_mono t); assumption. }
-  assert (Hchd : compactable (t_append h (re r) (t_delete h hd)) = compactable hd).
-  { rewrite (t_delete_none _ _ Hhd). reflexivity. }
+    apply (compactable_mono t); [assumption|assumption|apply t_delete_inuse|assumption]. }
+  assert (Hchd : compactable (t_append h (re r) (t_delete h hd)) = true -> compactable hd = true).
+  { rewrite (t_delete_none _ _ Hhd). apply compactable_append. }
   rewrite Es'. cbn [stabs with_tabs tl]. split; [now apply in_map|]. split.
-  - rewrite <- (mtr_ccount _ _ Hm (conj H3 Hs)), Et, !ccount_cons, Hchd. f_equal. now apply ccount_map_ext.
+  - rewrite <- (mtr_ccount _ _ Hm (conj H3 Hs)), Et, !ccount_cons. rewrite (ccount_map_ext _ _ Hcold).
+    destruct (compactable (t_append h (re r) (t_delete h hd))) eqn:Eap; [rewrite (Hchd eq_refl)|]; lia.
   - intros Hq. destruct (mtr_quiet _ _ Hm (conj H3 Hs) Hq) as [Hq1 Hh1]. unfold head_quiet in Hh1. rewrite Et in *.
-    pose proof (Forall_inv Hq1) as Qhd. pose proof (Forall_inv_tail Hq1) as Qold. split; [|unfold head_quiet; cbn [stabs with_tabs]; congruence].
+    pose proof (Forall_inv Hq1) as Qhd. pose proof (Forall_inv_tail Hq1) as Qold.
+    assert (Hnew : compactable (t_append h (re r) (t_delete h hd)) = false).
+    { destruct (compactable (t_append h (re r) (t_delete h hd))) eqn:Eap; [|reflexivity]. rewrite (Hchd eq_refl) in Hh1. discriminate. }
+    split; [|unfold head_quiet; cbn [stabs with_tabs]; exact Hnew].
     cbn [stabs with_tabs]. constructor.
-    + intros Hcc. rewrite Hchd in Hcc. congruence.
+    + intros Hcc. congruence.
     + apply Forall_forall. intros x' Hx'. apply in_map_iff in Hx' as (x & <- & Hx).
       rewrite Forall_forall in Qold. specialize (Qold _ Hx). unfold smallc in *. rewrite (Hcold _ Hx).
       intros Hcx. specialize (Qold Hcx). destruct (t_find h x) as [y|] eqn:Ey; [|now rewrite t_delete_none].
@@ -290,7 +308,7 @@ Qed.
 Lemma compactable_delete h t : compactable t = true -> compactable (t_delete h t) = true.
 Proof.
   intros Hc. destruct (t_find h t) as [y|] eqn:Ey; [|now rewrite t_delete_none].
-  destruct (t_delete_some _ _ _ Ey) as (A & B & _). apply (compactable_mono t); assumption.
+  destruct (t_delete_some _ _ _ Ey) as (A & B & _). apply (compactable_mono t); [assumption|assumption|apply t_delete_inuse|assumption].
 Qed.
 
 Lemma evict_loop_drain c : forall ord fuel s t,
@@ -299,7 +317,7 @@ Lemma evict_loop_drain c : forall ord fuel s t,
     cbase (evict_loop c ord fuel s) /\ ssize (evict_loop c ord fuel s) = ssize s /\
     (forall h, abs (evict_loop c ord fuel s) h = abs s h) /\
     In t' (tl (stabs (evict_loop c ord fuel s))) /\ live t' = true /\ tcoef t' = c /\ compactable t' = true /\
-    ccount (stabs (evict_loop c ord fuel s)) = ccount (stabs s) /\ (quiet s -> quiet (evict_loop c ord fuel s)) /\
+    (ccount (stabs (evict_loop c ord fuel s)) <= ccount (stabs s))%nat /\ (quiet s -> quiet (evict_loop c ord fuel s)) /\
     ((forall h, In h (hkeys (trecs t)) -> In h ord) -> (length (trecs t) <= fuel)%nat -> trecs t' = []).
 Proof.
   induction ord as [|h ord IH]; intros fuel s t Hb Hin Hl Hc Hcp.
@@ -369,14 +387,14 @@ Proof.
   assert (Hg : forall x, In x (stabs s1) -> compactable (g x) = true -> compactable x = true).
   { intros x Hx. unfold g. destruct (negb (is_recycled x) && (tcoef x =? tcoef t) && (tinuse x =? 0)); [|auto].
     rewrite compactable_reset; [discriminate|]. rewrite (twf_alloc _ _ (Hw1 _ Hx)). lia. }
-  split; [rewrite <- Hcc; now apply ccount_map_le|].
+  split; [etransitivity; [now apply ccount_map_le|exact Hcc]|].
   intros Hcov Hlen. specialize (Hdrain Hcov Hlen).
   assert (Hts' : In t' (stabs s1)). { destruct (stabs s1); [contradiction|now right]. }
   assert (Hgt' : g t' = t_reset t').
   { unfold g. fold (live t'). rewrite Hl', Hc', N.eqb_refl. cbn [andb].
     rewrite (twf_inuse _ _ (Hw1 _ Hts')), Hdrain. reflexivity. }
   split.
-  - rewrite <- Hcc. apply (ccount_map_lt g (stabs s1) t' Hg Hts' Hcp').
+  - eapply Nat.lt_le_trans; [|exact Hcc]. apply (ccount_map_lt g (stabs s1) t' Hg Hts' Hcp').
     rewrite Hgt'. apply compactable_reset. rewrite (twf_alloc _ _ (Hw1 _ Hts')). lia.
   - intros Hq0. destruct (Hq Hq0) as [Q1 Q2]. split.
     + cbn [stabs with_tabs]. apply Forall_forall. intros x' Hx'. apply in_map_iff in Hx' as (x & <- & Hx).
@@ -505,4 +523,27 @@ Theorem compaction_terminates_garbage ordf expired n s :
 Proof.
   intros Hcov H3 Hs Hsmall Hhd Hn. apply compaction_terminates; auto.
   apply quiet_of_garbage; auto. apply H3.
+Qed.
+
+(* ------------------------------------------------------------------ what qualifies ------------ *)
+
+Lemma compactable_meaning t :
+  compactable t = true <->
+  (tinuse t = 0 /\ 0 < tgarb t) \/ talloc t * max_garbage_ratio_num <= tgarb t * max_garbage_ratio_den.
+Proof.
+  unfold compactable. rewrite orb_true_iff, andb_true_iff. split.
+  - intros [[H1 H2]|H]; [left; split; lia|right; now apply N.leb_le in H].
+  - intros [[H1 H2]|H]; [left; split; lia|right; now apply N.leb_le].
+Qed.
+
+(* once Compaction() has reported done, a table other than the one being written that holds garbage holds live
+   bytes too and is below the garbage ratio *)
+Theorem no_dead_table_after_compaction ord expired s s' :
+  s_compaction ord expired s = (s', true) ->
+  forall t, In t (tl (stabs s')) -> 0 < tgarb t ->
+    0 < tinuse t /\ tgarb t * max_garbage_ratio_den < talloc t * max_garbage_ratio_num.
+Proof.
+  intros Hc t Hin Hg. destruct (compaction_done _ _ _ _ Hc) as (_ & H & _). specialize (H t Hin).
+  unfold compactable in H. apply orb_false_iff in H as [H1 H2]. apply N.leb_gt in H2.
+  split; [|exact H2]. apply andb_false_iff in H1 as [H1|H1]; lia.
 Qed.
